@@ -424,10 +424,44 @@ func (f *Frame) scanBody(pk *packages.Package, n *fnode, body ast.Node, valueTak
 			}
 		}
 	}
+	// calls that start a goroutine: under the sequential semantics the checks assume, what the goroutine does is
+	// not an effect of the call that spawns it (its arguments are still evaluated by the spawner)
+	spawned := map[*ast.CallExpr]bool{}
 	ast.Inspect(body, func(m ast.Node) bool {
+		if g, ok := m.(*ast.GoStmt); ok {
+			spawned[g.Call] = true
+		}
+		return true
+	})
+	var visit func(m ast.Node) bool
+	visit = func(m ast.Node) bool {
 		switch x := m.(type) {
 		case *ast.CallExpr:
 			callFuns[ast.Unparen(x.Fun)] = true
+			if spawned[x] {
+				if lit, isLit := ast.Unparen(x.Fun).(*ast.FuncLit); isLit {
+					child := &fnode{writes: newWset(), isLit: true}
+					if ls, ok := info.TypeOf(lit).(*types.Signature); ok {
+						child.sig = sigKey(ls)
+						child.params = paramIndex(ls)
+					}
+					if f.litByAST == nil {
+						f.litByAST = map[*ast.FuncLit]*fnode{}
+					}
+					f.litByAST[lit] = child
+					if n != nil {
+						child.fn = n.fn
+					}
+					f.litNodes = append(f.litNodes, child)
+					f.scanBody(pk, child, lit.Body, valueTaken)
+				} else if sel, ok := ast.Unparen(x.Fun).(*ast.SelectorExpr); ok {
+					ast.Inspect(sel.X, visit)
+				}
+				for _, a := range x.Args {
+					ast.Inspect(a, visit)
+				}
+				return false
+			}
 			if tv, ok := info.Types[x.Fun]; ok && tv.IsType() {
 				return true
 			}
@@ -603,7 +637,8 @@ func (f *Frame) scanBody(pk *packages.Package, n *fnode, body ast.Node, valueTak
 			}
 		}
 		return true
-	})
+	}
+	ast.Inspect(body, visit)
 	// function values taken (identifier/selector denoting a func, not in call position)
 	calledIdents := map[*ast.Ident]bool{}
 	ast.Inspect(body, func(m ast.Node) bool {
